@@ -14,7 +14,7 @@ PROG_RULE = (
     "closed-form enumeration (predicted cardinality == enumerated, else HARNESS error) of the bounded program grammar "
     "S-PROG (strata Pa: statements x expressions depth<=1 x {module,def} x optimize{0,1,2}; Pb: ordered statement pairs x 7 contexts; "
     "Pc: statement nested in statement x 3 contexts; Pe: eval-mode expressions depth<=2; Ps: single-mode), boundary families F/J "
-    "(operand and jump widths), line-shape programs L, the repo's own regression sources R%s; compiled by each real interpreter; "
+    "(operand and jump widths), line-shape programs L (module level) and Ld (the same shapes inside a function body), the repo's own regression sources R%s; compiled by each real interpreter; "
     "every nested code object is one evaluation, deduplicated by strict key. distinct_nontrivial = distinct code objects (by strict key over all co_* fields) %s"
 )
 
